@@ -114,6 +114,12 @@ func ledgerCases(id string, thorough bool) []ledgerCase {
 		combos = []fg{{FLegacyB, 2}, {FDynTip1Cap, 1}, {FLegacy2B, 3}, {FDynTip0, 0}}
 	}
 	for _, mg := range []int64{40_000_000, 100_000} {
+		pairKinds := pairKinds
+		if id == "C04" && !thorough && mg == 100_000 {
+			// quick tier: in the 100k world (second tx mostly dropped for block gas) the product runs over the basic kinds only; the
+			// value-recipient kinds meet each other in the 40M world (and in both worlds in the thorough tier)
+			pairKinds = ledgerKinds
+		}
 		for _, k1 := range pairKinds {
 			for _, c1 := range combos {
 				for _, k2 := range pairKinds {
@@ -156,6 +162,10 @@ func ledgerCases(id string, thorough bool) []ledgerCase {
 				cases = append(cases, ledgerCase{MaxGas: mg, Warm: warm, Blocks: [][]TxSpec{f, {{Kind: k, Sender: 0, Fee: c1.f, GasLimit: gasVariants(k)[c1.g]}}}})
 			}
 		}
+	}
+	if id == "C04" {
+		// magnitude dimension (c04_mag.go): amounts around the integer-width boundaries
+		cases = append(cases, c04MagCases(thorough, used)...)
 	}
 	if thorough {
 		// three-tx blocks with a cosmos tx in the middle
@@ -409,6 +419,9 @@ func runLedgerCheck(id string, replay string) int {
 					os.Exit(2)
 				}
 			}
+			if id == "C04" && c04IsMagCase(c) {
+				fs = append(fs, c04MagObserve(run, c, bl)...)
+			}
 			run.Count("transitions", int64(len(c.Blocks)))
 			run.Count("traces_validated_against_impl", 1)
 			nt := 0
@@ -457,9 +470,9 @@ func runLedgerCheck(id string, replay string) int {
 	singleKinds, pairKinds := ledgerKindSets(id, run.Thorough())
 	recipientRule := ""
 	if id == "C04" {
-		recipientRule = fmt.Sprintf("; kinds = 16 basic kinds + value-recipient kinds <mode>:<recipient> (value %d as top-level `to` = pay, as value-carrying CALL from a gadget contract = forward, whole balance %d of a gadget as SELFDESTRUCT beneficiary = suicide): single-tx blocks and second blocks use pay x all %d module accounts + @self + @wallet and forward/suicide x {@sink, evm, fee_collector, bonded_tokens_pool, distribution}, multi-tx blocks use %s; single-tx blocks both from genesis and after a warm-up block (evm module account exists); 2 more first blocks made of module-recipient txs", RecipientValue, SuicideGadgetFunds, len(ModuleRecipients), map[bool]string{false: "pay/forward/suicide x {evm, fee_collector, bonded_tokens_pool} + forward:@sink", true: "pay/forward/suicide x {evm, fee_collector, bonded_tokens_pool, distribution} + forward:@sink + suicide:@sink"}[run.Thorough()])
+		recipientRule = fmt.Sprintf("; kinds = 16 basic kinds + value-recipient kinds <mode>:<recipient> (value %d as top-level `to` = pay, as value-carrying CALL from a gadget contract = forward, whole balance %d of a gadget as SELFDESTRUCT beneficiary = suicide): single-tx blocks and second blocks use pay x all %d module accounts + @self + @wallet and forward/suicide x {@sink, evm, fee_collector, bonded_tokens_pool, distribution}, multi-tx blocks use %s; single-tx blocks both from genesis and after a warm-up block (evm module account exists); 2 more first blocks made of module-recipient txs", RecipientValue, SuicideGadgetFunds, len(ModuleRecipients), map[bool]string{false: "pay/forward/suicide x {evm, fee_collector, bonded_tokens_pool} + forward:@sink", true: "pay/forward/suicide x {evm, fee_collector, bonded_tokens_pool, distribution} + forward:@sink + suicide:@sink"}[run.Thorough()]) + c04MagRule(run.Thorough())
 	}
-	run.Coverage["rule"] = refundRule[min(2, len(refundRule)):] + " " + fmt.Sprintf("single-tx blocks: full product of %d kinds × %d fee shapes × 4 gas limits {used, used+1, 2×used, 6M} × MaxGas∈{40M,100k}; two-tx blocks: (%d kinds × fee/gas combo)² × {same, different sender} × both worlds; two-block histories after fixed first blocks%s%s. distinct_nontrivial = distinct histories in which an unused-gas refund was due or a tx failed after admission", len(singleKinds), len(ledgerFees), len(pairKinds), map[bool]string{false: "", true: "; three-tx blocks with a Cosmos tx in the middle"}[run.Thorough()], recipientRule)
+	run.Coverage["rule"] = refundRule[min(2, len(refundRule)):] + " " + fmt.Sprintf("single-tx blocks: full product of %d kinds × %d fee shapes × 4 gas limits {used, used+1, 2×used, 6M} × MaxGas∈{40M,100k}; two-tx blocks: (%d kinds × fee/gas combo)² × {same, different sender} × both worlds%s; two-block histories after fixed first blocks%s%s. distinct_nontrivial = distinct histories in which an unused-gas refund was due or a tx failed after admission", len(singleKinds), len(ledgerFees), len(pairKinds), map[bool]string{true: " (100k world: the 16 basic kinds only)", false: ""}[id == "C04" && !run.Thorough()], map[bool]string{false: "", true: "; three-tx blocks with a Cosmos tx in the middle"}[run.Thorough()], recipientRule)
 	return run.Finish()
 }
 
